@@ -46,6 +46,9 @@ class Spec(object):
     def nontrivial(self, worlds, mon):
         return True
 
+    def deepen(self, k):
+        self.depth = getattr(self, "depth", 0) + k
+
     def outcome(self, results):
         """a small hashable summary of what was observed in a step (distinct outcomes are counted)"""
         rs = results[0]
